@@ -74,6 +74,35 @@ Definition search_case (fen : string) (ms : list string) (specs : list (nat * op
                end
   end.
 
+(* a search interrupted through an ORACLE rather than a node budget: kind 0 = a stop from the
+   input thread first seen by the flag load number `idx` (0-based); kind 1 = the game clock
+   (wtime/btime given, time-management budget 30000 ms) found expired by the clock reading number
+   `idx`; kind 2 = movetime 30000 found expired by the clock reading number `idx`; kind 3 = no limit
+   at all while the clock jumps by 10^10 ms at reading number `idx` (nothing may change).  The engine
+   side counts its flag loads and clock readings (guarded counters) and reports the index at
+   which the driver forced the interruption; this runs the model with exactly that oracle. *)
+Definition run_cut (b : Board) (depth : nat) (kind : N) (idx : N) (tt_on : bool) :=
+  let lim := match kind with
+             | 1%N => mkLimits None None true 30000
+             | 2%N => mkLimits None (Some 30000%N) false 0
+             | _ => no_limits
+             end in
+  let clock := fun k : nat => if (kind =? 0)%N then 0%N
+                              else if (idx <=? N.of_nat k)%N then (if (kind =? 3)%N then 10000000000%N else 60000%N) else 0%N in
+  let ext_stop := fun k : nat => if (kind =? 0)%N then (idx <=? N.of_nat k)%N else false in
+  let '(s, out) := c_search lim clock ext_stop tt_on (init_st Ply) b (Some depth) in
+  (match best_move _ s with Some m => Some (enc_ply m) | None => None end,
+   match best_score _ s with Some v => Some (enc_z v) | None => None end,
+   nodes _ s, N.of_nat (seldepth _ s), map enc_write (rev (trace _ s)), map enc_out out).
+Definition cut_case (fen : string) (ms : list string) (depth : nat) (kind idx : N) (tt_on : bool) :=
+  match from_fen fen with
+  | None => None
+  | Some b0 => match play b0 ms with
+               | None => None
+               | Some b => Some [run_cut b depth kind idx tt_on]
+               end
+  end.
+
 (* the reference value on the chess model (exponential: only for small depths / sparse positions) *)
 From RCE Require Import spec.Game.
 Definition c_Vroot (depth : nat) (b : Board) : option (N * N) :=
